@@ -119,6 +119,10 @@ func (n *CocagoParser) Visitor(f *ast.File, fset *token.FileSet, fileName string
 			// every type declaration gets its own value: storing &currentStruct made all entries of
 			// dsMap alias the one variable, so a file with several types listed the last one n times
 			declared := currentStruct
+			if earlier, ok := dsMap[currentStruct.NodeName]; ok {
+				// methods written above their receiver type were collected under its name already
+				declared.Functions = earlier.Functions
+			}
 			dsMap[currentStruct.NodeName] = &declared
 		case *ast.StructType:
 			AddStructType(currentStruct.NodeName, x, &currentFile, dsMap)
@@ -126,6 +130,10 @@ func (n *CocagoParser) Visitor(f *ast.File, fset *token.FileSet, fileName string
 			funcType = "FuncDecl"
 			currentFunc, recv := AddFunctionDecl(x, &currentFile)
 			if recv != "" {
+				if dsMap[recv] == nil {
+					// the receiver type is declared further down in the file (or in another file of the package)
+					dsMap[recv] = &core_domain.CodeDataStruct{NodeName: recv, Package: currentFile.PackageName}
+				}
 				dsMap[recv].Functions = append(dsMap[recv].Functions, *currentFunc)
 			}
 		case *ast.FuncType:
